@@ -29,6 +29,23 @@ THEOREMS = [P + 'C12_choose_sublist', P + 'C12_unactionable', P + 'C12_patch_is_
             'Scalibr.Npm.C12_npm_writer_correct', 'Scalibr.Npm.C12_npm_roundtrip_partial']
 
 
+def build_noshim(log):
+    """go build -tags verif,noshim with the overlay entries named in the compiler output removed; returns (binary|None, [broken files])"""
+    import json, os, re
+    ov = json.load(open(lib.HARNESS + '/overlay/overlay.json'))
+    named = set(re.findall(r'(/\S*verif_export_\w+\.go)', log))      # the compiler names the overlay SOURCE file (or its /repo path)
+    broken = sorted(k for k, v in ov['Replace'].items() if k in named or v in named)
+    if not broken:
+        return None, []
+    ov['Replace'] = {k: v for k, v in ov['Replace'].items() if k not in broken}
+    os.makedirs(lib.VERIF + '/evidence', exist_ok=True)
+    path = lib.VERIF + '/evidence/.overlay-noshim-C12.json'
+    json.dump(ov, open(path, 'w'))
+    out_bin = lib.HARNESS + '/bin/c12gen-noshim'
+    rc, out = lib.sh(['go', 'build', '-tags', 'verif,noshim', '-overlay', path, '-o', out_bin, './cmd/c12gen'], cwd=lib.HARNESS, env=lib.goenv(), timeout=3600)
+    return (out_bin if rc == 0 else None), [os.path.basename(b) for b in broken]
+
+
 def run(ctx):
     ctx.trusted = ['Lean 4.33.0 kernel', 'axioms: propext, Quot.sound, Classical.choice at most (see theorems.*.axioms)',
                    'deps.dev npm/Maven resolvers and the local matcher are deterministic functions of the manifest requirements (parameters of the model; both FixVulns runs use the same clients)',
@@ -39,7 +56,8 @@ def run(ctx):
     ctx.rule = ('cp = 0-6 patches (1-2 updates over 4 packages x 2 old versions, 1-2 fixed ids, sometimes introduced ids) x MaxUpgrades in {-1,0,1,2,3} x NoIntroduce, through the real choosePatches and '
                 'computeVulnsResult; cd = old/new vulnerability id lists and old/new requirement lists (real package.json manifests) through the real ConstructPatches; '
                 'e2e = universe of 2-4 packages (dotted/scoped names, 1-6 versions, transitive package) x manifest (1-4 requirements, dev deps; for npm every second manifest requires one package through 1-2 extra npm: alias entries at the identical or another range) x 1-3 vulnerabilities (chains: fixed here, introduced '
-                'there) x options (MaxUpgrades, NoIntroduce, ignore/explicit lists, DevDeps, MaxDepth, per-package levels), npm/relax and Maven/override, through the real FixVulns twice. '
+                'there) x options (MaxUpgrades, NoIntroduce, ignore/explicit lists, DevDeps, MaxDepth, per-package levels), npm/relax and Maven/override, through the real FixVulns twice; every fourth case pins a '
+                'transitive package at level None below a package whose patch (MaxUpgrades = 1) fixes the pinned package\'s vulnerability as a side effect. '
                 'non-trivial = a patch was chosen / reported; distinct = distinct case lines')
     ok, _ = ctx.lean_build(['Scalibr.Properties.C12', 'drv_c12'])
     proofs_ok = ctx.audit(['Scalibr.Properties.C12'], THEOREMS)
@@ -49,9 +67,16 @@ def run(ctx):
 
     binary = ctx.go_build('c12gen')
     if binary is None:
-        ctx.violation('harness c12gen does not build against /repo (tie broken): %s' % getattr(ctx, 'go_log', '')[-1500:],
-                      ['# correspondence stream c12gen could not be built'], found_input=False, name='build-c12gen')
-        return
+        # RESILIENCE: an export shim that no longer compiles against /repo breaks the tie for the unit streams only.
+        # Rebuild without the shim-dependent files (-tags verif,noshim) and without the overlay entries the compiler
+        # complained about, and keep searching for a failing input with the public-API end-to-end stream.
+        log = getattr(ctx, 'go_log', '')
+        binary, broken = build_noshim(log)
+        ctx.violation('the export shims %s do not compile against /repo: the tie is broken for the unit streams (choosePatches / computeVulnsResult / ConstructPatches); '
+                      'the end-to-end stream (public FixVulns) was %s: %s' % (broken or '?', 'still run' if binary else 'not buildable either', log[-1200:]),
+                      ['# unit streams of c12gen could not be built'], found_input=False, name='build-c12gen')
+        if binary is None:
+            return
     rows = []
     if ctx.replay:
         r, okg = ctx.run_gen(binary, ['-replay', ctx.replay])
